@@ -756,6 +756,8 @@ def frange(start, stop, step=1.0):
     while x + epsilon < stop:
         i += 1.0
         x = x0 + i * step
+        if abs(stop - x) <= abs(step) * 1e-9:
+            x = float(stop)  # the last step reaches the stop value up to round-off
         yield x
     if stop > x:
         yield stop  # for yielding last value of the knot vector if the step is a large value, like 0.1
